@@ -519,6 +519,11 @@ pub fn build_unfinalized(p: &Program, cfg: &Cfg) -> Result<(Vec<u8>, Vec<usize>)
 
 pub fn reader_config(key_indices: &[usize]) -> ArchiveReaderConfig {
     let mut c = ArchiveReaderConfig::new();
+    add_reader_keys(&mut c, key_indices);
+    c
+}
+
+pub fn add_reader_keys(c: &mut ArchiveReaderConfig, key_indices: &[usize]) {
     let ks: Vec<_> = key_indices.iter().map(|i| keys::secret(*i)).collect();
     // several candidate keys: registered in two calls, as a caller collecting keys one by one does
     if ks.len() >= 2 {
@@ -527,7 +532,6 @@ pub fn reader_config(key_indices: &[usize]) -> ArchiveReaderConfig {
     } else {
         c.add_private_keys(&ks);
     }
-    c
 }
 
 #[derive(Clone, Debug, PartialEq, Eq)]
@@ -702,7 +706,9 @@ pub fn repair_from<R: Read>(src: R, key_indices: &[usize], unauthenticated: bool
 /// is set first and the requested one afterwards; without keys and in the default mode, route 0 uses
 /// `ArchiveFailSafeReader::new`.
 pub fn repair_route<R: Read>(src: R, key_indices: &[usize], unauthenticated: bool, route: usize) -> Result<RepairResult, (String, String)> {
-    let mut rc = reader_config(key_indices);
+    // the keys are registered before the mode is chosen, or after (every second group of three routes)
+    let keys_last = (route / 3) % 2 == 1;
+    let mut rc = if keys_last { ArchiveReaderConfig::new() } else { reader_config(key_indices) };
     match (unauthenticated, route % 3) {
         (true, 2) => {
             rc.failsafe_return_only_authenticated_data();
@@ -719,6 +725,9 @@ pub fn repair_route<R: Read>(src: R, key_indices: &[usize], unauthenticated: boo
             rc.failsafe_return_data_even_unauthenticated();
             rc.failsafe_return_only_authenticated_data();
         }
+    }
+    if keys_last {
+        add_reader_keys(&mut rc, key_indices);
     }
     let mut fs = if key_indices.is_empty() && !unauthenticated && route % 3 == 0 {
         ArchiveFailSafeReader::new(src).map_err(|e| ("open".to_string(), format!("{e:?}")))?
